@@ -435,7 +435,7 @@ func (g *ProgGen) switchStmt(depth int) gast.Stmt {
 			break
 		}
 		c := gast.Case{Body: g.block(depth-1, 1)}
-		m := 1 + r.Intn(2)
+		m := 1 + r.Intn(3)
 		for j := 0; j < m; j++ {
 			switch {
 			case subjKind == model.KStr && r.Intn(3) == 0:
@@ -444,6 +444,11 @@ func (g *ProgGen) switchStmt(depth int) gast.Stmt {
 				c.Exprs = append(c.Exprs, g.E.Of(subjKind, 1, false))
 			default:
 				c.Exprs = append(c.Exprs, g.E.leafLit(subjKind))
+			}
+			if r.Intn(3) == 0 {
+				// make the evaluation of this alternative observable: v() is traced and
+				// returns its argument (alternatives after the matching one are not evaluated)
+				c.Exprs[len(c.Exprs)-1] = gast.Call{Fn: "v", Args: []gast.Expr{c.Exprs[len(c.Exprs)-1]}}
 			}
 		}
 		sw.Cases = append(sw.Cases, c)
